@@ -195,7 +195,22 @@ func genC02(rt *rapid.T, tier string) any {
 					pos = len(doc) - 1
 				}
 			}
-			switch rapid.IntRange(0, 5).Draw(rt, "mutkind") {
+			switch rapid.IntRange(0, 6).Draw(rt, "mutkind") {
+			case 6:
+				// replace the next run of digits by an extreme number
+				i := pos
+				for i < len(doc) && (doc[i] < '0' || doc[i] > '9') {
+					i++
+				}
+				j := i
+				for j < len(doc) && doc[j] >= '0' && doc[j] <= '9' {
+					j++
+				}
+				if i < len(doc) {
+					big := rapid.SampledFrom([]string{"99999999999999999999", "1000000000000", "18446744073709551616", "-1", "0", "1e999", "4611686018427387904", "00000000000000000000000000000001"}).Draw(rt, "bignum")
+					doc = append(doc[:i:i], append([]byte(big), doc[j:]...)...)
+					c.Base += fmt.Sprintf("+bignum@%d", i)
+				}
 			case 0:
 				b := rapid.SampledFrom(structural).Draw(rt, "byte")
 				if rapid.IntRange(0, 4).Draw(rt, "anybyte") == 0 {
